@@ -23,6 +23,8 @@ pub struct DocKind {
     pub value_order: fn(&[&'static str]) -> Vec<usize>,
     /// structurally invalid documents (text) that must be rejected
     pub invalid: fn() -> Vec<String>,
+    /// may a comment line precede the first paragraph? (a copyright file must START with its Format field)
+    pub leading_comment_ok: bool,
 }
 
 fn items_of<T: ToDeb822Paragraph<lossy::Paragraph>>(v: &T) -> Items {
@@ -182,15 +184,15 @@ fn sh_repos() -> Vec<Vec<&'static str>> {
 
 pub fn kinds() -> Vec<DocKind> {
     vec![
-        DocKind { id: "lossy control file", shapes: control_shapes, parse: control_parse, equal: |a, b| by_print(control_parse, a, b), value_order: control_order, invalid: control_invalid },
-        DocKind { id: "lossy copyright file", shapes: copyright_shapes, parse: copyright_parse, equal: copyright_equal, value_order: copyright_order, invalid: copyright_invalid },
-        DocKind { id: "apt Sources stanza", shapes: sh_apt_source, parse: apt_source_parse, equal: apt_source_eq, value_order: identity_order, invalid: no_invalid },
-        DocKind { id: "apt Packages stanza", shapes: sh_apt_package, parse: apt_package_parse, equal: apt_package_eq, value_order: identity_order, invalid: no_invalid },
-        DocKind { id: "apt Release stanza", shapes: sh_apt_release, parse: apt_release_parse, equal: apt_release_eq, value_order: identity_order, invalid: no_invalid },
-        DocKind { id: "removal record", shapes: sh_removal, parse: removal_parse, equal: removal_eq, value_order: identity_order, invalid: no_invalid },
-        DocKind { id: "lossy buildinfo", shapes: sh_buildinfo, parse: buildinfo_parse, equal: buildinfo_eq, value_order: identity_order, invalid: no_invalid },
-        DocKind { id: "DEP-3 header", shapes: sh_dep3, parse: dep3_parse, equal: dep3_eq, value_order: identity_order, invalid: no_invalid },
-        DocKind { id: "APT sources list", shapes: sh_repos, parse: repos_parse, equal: repos_equal, value_order: identity_order, invalid: no_invalid },
+        DocKind { id: "lossy control file", shapes: control_shapes, parse: control_parse, equal: |a, b| by_print(control_parse, a, b), value_order: control_order, invalid: control_invalid, leading_comment_ok: true },
+        DocKind { id: "lossy copyright file", shapes: copyright_shapes, parse: copyright_parse, equal: copyright_equal, value_order: copyright_order, invalid: copyright_invalid, leading_comment_ok: false },
+        DocKind { id: "apt Sources stanza", shapes: sh_apt_source, parse: apt_source_parse, equal: apt_source_eq, value_order: identity_order, invalid: no_invalid, leading_comment_ok: true },
+        DocKind { id: "apt Packages stanza", shapes: sh_apt_package, parse: apt_package_parse, equal: apt_package_eq, value_order: identity_order, invalid: no_invalid, leading_comment_ok: true },
+        DocKind { id: "apt Release stanza", shapes: sh_apt_release, parse: apt_release_parse, equal: apt_release_eq, value_order: identity_order, invalid: no_invalid, leading_comment_ok: true },
+        DocKind { id: "removal record", shapes: sh_removal, parse: removal_parse, equal: removal_eq, value_order: identity_order, invalid: no_invalid, leading_comment_ok: true },
+        DocKind { id: "lossy buildinfo", shapes: sh_buildinfo, parse: buildinfo_parse, equal: buildinfo_eq, value_order: identity_order, invalid: no_invalid, leading_comment_ok: true },
+        DocKind { id: "DEP-3 header", shapes: sh_dep3, parse: dep3_parse, equal: dep3_eq, value_order: identity_order, invalid: no_invalid, leading_comment_ok: true },
+        DocKind { id: "APT sources list", shapes: sh_repos, parse: repos_parse, equal: repos_equal, value_order: identity_order, invalid: no_invalid, leading_comment_ok: true },
     ]
 }
 
@@ -218,10 +220,10 @@ fn specs_of(shape: &[&'static str]) -> Option<Vec<ParaSpec>> {
 }
 
 /// the distinguishing field of a role must keep distinct values across paragraphs of the same role
-fn render_doc(specs: &[ParaSpec], vs: &[Vec<usize>], layout: usize) -> (String, Vec<Vec<(String, String, Norm)>>) {
+fn render_doc(specs: &[ParaSpec], vs: &[Vec<usize>], layout: usize, leading_ok: bool) -> (String, Vec<Vec<(String, String, Norm)>>) {
     let mut text = String::new();
     let mut model = vec![];
-    if layout == 1 || layout == 3 {
+    if (layout == 1 || layout == 3) && leading_ok {
         text.push_str("# leading comment\n");
     }
     for (pi, (sp, v)) in specs.iter().zip(vs.iter()).enumerate() {
@@ -257,7 +259,10 @@ fn render_doc(specs: &[ParaSpec], vs: &[Vec<usize>], layout: usize) -> (String, 
 fn check_doc(kind: &DocKind, shape: &[&'static str], vs: &[Vec<usize>], layout: usize) -> Vec<Viol> {
     let mut out = vec![];
     let Some(specs) = specs_of(shape) else { return vec![viol("harness", format!("missing field table for {:?}", shape))] };
-    let (text, model) = render_doc(&specs, vs, layout);
+    let (text, model) = render_doc(&specs, vs, layout, kind.leading_comment_ok);
+    if model.iter().any(|p| p.is_empty()) {
+        return vec![]; // a paragraph without any field is not a paragraph
+    }
     let ctx = |w: &str| format!("{} {:?}: {}", kind.id, text, w);
     // the lossless reader must accept the text (else the document is not well-formed input)
     let Ok(ll) = Deb822::from_str(&text) else { return vec![viol("harness", ctx("generated document rejected by the lossless reader"))] };
@@ -395,7 +400,8 @@ impl Prop for C20 {
             }
             for (pi, sp) in specs.iter().enumerate() {
                 for (fi, fld) in sp.fields.iter().enumerate() {
-                    if fld.mandatory {
+                    // deleting the Files field turns a Files paragraph into a (valid) stand-alone licence paragraph
+                    if fld.mandatory && !(sp.id == CF && fld.name == "Files") {
                         f(&C20Case::Missing { kind: kind.id.to_string(), shape: idx, para: pi, field: fi });
                     }
                 }
@@ -425,7 +431,7 @@ impl Prop for C20 {
                 let Some(specs) = specs_of(sh) else { return vec![] };
                 let mut vs: Vec<Vec<usize>> = specs.iter().enumerate().map(|(pi, sp)| base_vectors(sp, 1, pi)).collect();
                 vs[*para][*field] = 0;
-                let (text, _) = render_doc(&specs, &vs, 0);
+                let (text, _) = render_doc(&specs, &vs, 0, true);
                 match (k.parse)(&text) {
                     Ok(_) => vec![viol("missing-mandatory-rejected", format!("{} {:?}: accepted although paragraph {} lacks mandatory field {}", k.id, text, para, specs[*para].fields[*field].name))],
                     Err(_) => vec![],
